@@ -1,6 +1,7 @@
 package tun
 
 import (
+	"github.com/vapourismo/knx-go/knx/util"
 	"fmt"
 	"os"
 	"runtime"
@@ -13,7 +14,18 @@ import (
 )
 
 // runReal executes plan on the real clock (mode R).
+type slowLogger struct{ d time.Duration }
+
+func (l slowLogger) Printf(format string, args ...interface{}) {
+	_ = fmt.Sprintf(format, args...)
+	time.Sleep(l.d)
+}
+
 func runReal(p *Plan) *Result {
+	if p.SlowLogUs > 0 {
+		util.Logger = slowLogger{us(p.SlowLogUs)}
+		defer func() { util.Logger = nil }()
+	}
 	sim := &Sim{Plan: p, Limit: 5 * time.Second}
 	return sim.Run()
 }
